@@ -13,7 +13,11 @@ class Spec(simcheck.SimSpec):
     families = [{'label': 'well-formed', 'family': 'well'},
                 {'label': 'well-formed-2', 'family': 'well'},
                 {'label': 'malformed-returns', 'family': 'malformed'},
-                {'label': 'unmergeable-updates', 'family': 'unmergeable'}]
+                {'label': 'unmergeable-updates', 'family': 'unmergeable'},
+                # results of an earlier run in the environment: dependencies
+                # that are re-executed must still finish first
+                {'label': 'initial-env-done', 'family': 'well',
+                 'init_done': True}]
     rule = ('one evaluation = one simulated execution of Scheduler.schedule() '
             'on a seeded acyclic hard/soft graph of <= 9 probe tasks with '
             'scripted outcomes, 1-5 workers, under a seeded policy (random '
@@ -37,6 +41,10 @@ class Spec(simcheck.SimSpec):
             'the choice of which thread runs next', 'the clock']
 
     def gen(self, rng, fam):
+        if fam.get('init_done'):
+            return sched.gen_scenario(rng, family=fam['family'],
+                                      init_env=True,
+                                      init_statuses=('DONE',))
         return sched.gen_scenario(rng, family=fam['family'])
 
     def draw_chooser(self, rng, scn):
